@@ -8,7 +8,7 @@ print(f"""You are helping to evaluate a verification effort for the open-source 
 You have your own scratch git worktree of the repository at {wt} (a detached checkout; work ONLY inside it and inside {out}; never touch /repo or /verif, and do not read anything under /verif). The package lives in {wt}/blackbird_python/blackbird, the grammar in {wt}/src/blackbird.g4, generated C++ artefacts in {wt}/blackbird_cpp.
 IMPORTANT: the virtualenv has an editable install pointing at /repo, so ALWAYS run python with PYTHONPATH={wt}/blackbird_python so that your worktree's code is imported, e.g.
   cd {wt} && PYTHONPATH={wt}/blackbird_python /venv/bin/python -m pytest -q -p no:cacheprovider
-(467 tests pass and 21 tests in test_auxiliary.py TestExpressionArray always fail on this image because of NumPy 2; those 21 failures are the baseline and are expected. No network is available.)
+(467 tests pass and 21 tests - 20 in test_auxiliary.py TestExpressionArray and test_listener.py::TestParsingVariables::test_array_variable_expression - always fail on this image because of NumPy 2; those 21 failures are the baseline and are expected. No network is available.)
 
 Here is a semantic property of blackbird that is supposed to hold:
 
